@@ -39,7 +39,7 @@ Fixpoint copy_out (a : list N) (from count : nat) : outcome (list N) :=
 Definition substr_tail (s : list N) (start : Z) (count : N) : outcome (list N) :=
   let max := size s in
   let ustart := of_ssize start in
-  (* repaired clamp: compares count with max - start, no start + count overflow *)
+  (* if (count > max - start) count = max - start;   (max - start in size_t) *)
   let count := if sub64 max ustart <? count then sub64 max ustart else count in
   if (start =? 0)%Z && (count =? max) then Ok s                       (* return *this *)
   else
@@ -61,10 +61,11 @@ Definition substr_model (s : list N) (start : Z) (count0 : N) : outcome (list N)
 
 Definition left_model (s : list N) (n : N) : outcome (list N) := substr_model s 0%Z n.
 
-(* right(size), repaired: the last min(size, this->size()) bytes *)
+(* right(size): if (size > this->size()) size = this->size(); return substr(this->size() - size, size);
+   the size_t difference is converted to the ssize_t parameter *)
 Definition right_model (s : list N) (n : N) : outcome (list N) :=
-  if size s <? n then substr_model s 0%Z n
-  else substr_model s (to_ssize (sub64 (size s) n)) n.
+  let n' := if size s <? n then size s else n in
+  substr_model s (to_ssize (sub64 (size s) n')) n'.
 
 (* ---- trim ---------------------------------------------------------------------------------- *)
 (* find_cs(charset, cssize, c) != nullptr *)
@@ -246,7 +247,6 @@ Definition after_first_c cs s ch :=
 Definition after_first_z cs s sep :=
   first <- find_cstr cs s 0 sep ;;
   if (0 <=? first)%Z then n <- sep_strlen sep ;; substr_model s (ssize_plus first n) size_max else Ok [].
-(* repaired: skips sep.size() bytes *)
 Definition after_first_s cs s sep :=
   first <- find_str cs s 0 sep ;;
   if (0 <=? first)%Z then substr_model s (ssize_plus first (size sep)) size_max else Ok [].
